@@ -3255,3 +3255,320 @@ func runRefinedLengthBounded(rr *RuleRun) {
 		})
 	})
 }
+
+// ---------------------------------------------------------------------------
+// C10.argerror-carries-index, C12.json-prefix-sniff-trimmed, C19.descending-loop-reaches-zero,
+// C18.fresh-container, C07 nil-ness in Equals, C12.flatten-needs-known-length
+
+func init() {
+	register(&Rule{
+		ID: "C10.argerror-carries-index", Prop: "C10", Also: []string{"C11"}, Floor: 2, Controls: 0,
+		Doc: "the constructors of ArgError (NewArgError, NewArgErrorf) set the Index field from their index parameter in every ArgError they build: an argument error that names argument 0 whatever the offending position misleads the caller about which argument broke the contract",
+		Run: runArgErrorCarriesIndex,
+	})
+	register(&Rule{
+		ID: "C12.json-prefix-sniff-trimmed", Prop: "C12", Also: []string{"C11"}, Floor: 1, Controls: 0,
+		Doc: "JSONDecodeFunc's type prediction for an unknown document sniffs the first significant character from the known prefix with all four JSON whitespace characters (space, tab, LF, CR) removed — strings.TrimSpace, or a TrimLeft whose cutset contains all four — and from that trimmed string, not from the raw prefix: otherwise a prefix that begins with whitespace is rejected although every document with that prefix decodes",
+		Run: runJSONPrefixSniffTrimmed,
+	})
+	register(&Rule{
+		ID: "C19.descending-loop-reaches-zero", Prop: "C19", Also: []string{"C03", "C07", "C09"}, Floor: 0, Controls: 1,
+		Doc: "a loop that walks a slice from its last index downwards and addresses members with the loop index alone (x[i], never x[i-1]) continues while the index is >= 0: with '> 0' the member at index 0 is never visited, so two sequences that differ only in their first member are treated alike",
+		Run: runDescendingLoopReachesZero,
+	})
+	register(&Rule{
+		ID: "C18.fresh-container", Prop: "C18", Also: []string{"C20"}, Floor: 1, Controls: 0,
+		Doc: "fromCtyMap stores decoded entries only into a map it made itself (reflect.MakeMap on every path to SetMapIndex), never into the map the target already holds: decoding into a reused target must not keep the keys of its earlier contents, nor write into a map the caller may share",
+		Run: runFreshContainer,
+	})
+	register(&Rule{
+		ID: "C12.flatten-needs-known-length", Prop: "C12", Also: []string{"C11"}, Floor: 1, Controls: 0,
+		Doc: "the recursive helper of flatten iterates over a member only where its Length() is known (or it is wholly known): a set holding unknown members has no definite length or order, so iterating it by stored members fixes a result length that the concrete value may not have",
+		Run: runFlattenNeedsKnownLength,
+	})
+}
+
+func runArgErrorCarriesIndex(rr *RuleRun) {
+	c := rr.Ctx
+	pkg := "cty/function"
+	info := c.Info(pkg)
+	for _, name := range []string{"NewArgError", "NewArgErrorf"} {
+		fd := rr.MustDecl(pkg, name)
+		if fd == nil {
+			continue
+		}
+		idx := info.Defs[paramIdent(fd, 0)]
+		n := 0
+		inspectNoLit(fd.Body, func(nd ast.Node) bool {
+			lit, ok := nd.(*ast.CompositeLit)
+			if !ok || namedType(info.TypeOf(lit)) != "cty/function.ArgError" {
+				return true
+			}
+			n++
+			key := fmt.Sprintf("%s.%s/ArgError{…}", pkg, name)
+			set := false
+			for i, el := range lit.Elts {
+				if kv, ok := el.(*ast.KeyValueExpr); ok {
+					if id, ok := kv.Key.(*ast.Ident); ok && id.Name == "Index" && objOf(info, kv.Value) == idx {
+						set = true
+					}
+				} else if i == 1 && objOf(info, el) == idx {
+					set = true
+				}
+			}
+			if set {
+				rr.OK(key, lit.Pos(), "Index is the index parameter")
+			} else {
+				rr.Violation(key, lit.Pos(), "this ArgError is built without its Index set from the index parameter: the error then names argument 0 whatever the offending position")
+			}
+			return true
+		})
+		if n == 0 {
+			rr.Assumed(fmt.Sprintf("%s.%s", pkg, name), fd.Pos(), "no ArgError literal in the constructor (built elsewhere)")
+		}
+	}
+}
+
+func runJSONPrefixSniffTrimmed(rr *RuleRun) {
+	c := rr.Ctx
+	pkg := "cty/function/stdlib"
+	info := c.Info(pkg)
+	for _, s := range findSpecs(c, pkg) {
+		if s.Name != "JSONDecodeFunc" || s.TypeCB == nil {
+			continue
+		}
+		body, _, _ := resolveCallback(c, pkg, s.TypeCB)
+		if body == nil {
+			continue
+		}
+		fullTrim := func(e ast.Expr) (bool, string) {
+			call, ok := ast.Unparen(e).(*ast.CallExpr)
+			if !ok {
+				return false, ""
+			}
+			switch funcKey(callee(info, call)) {
+			case "strings.TrimSpace":
+				return true, ""
+			case "strings.TrimLeft", "strings.Trim":
+				if tv, ok := info.Types[call.Args[1]]; ok && tv.Value != nil {
+					cut := constantString(tv.Value)
+					for _, ws := range []string{" ", "\t", "\n", "\r"} {
+						if !strings.Contains(cut, ws) {
+							return false, fmt.Sprintf("the cutset %q lacks %q", cut, ws)
+						}
+					}
+					return true, ""
+				}
+			}
+			return false, ""
+		}
+		n := 0
+		inspectNoLit(body, func(nd ast.Node) bool {
+			call, ok := nd.(*ast.CallExpr)
+			if !ok || !isCall(info, call, "unicode/utf8.DecodeRuneInString") || len(call.Args) != 1 {
+				return true
+			}
+			n++
+			key := pkg + ".JSONDecodeFunc.Type/first-rune"
+			arg := ast.Unparen(call.Args[0])
+			src := arg
+			if id, ok := arg.(*ast.Ident); ok {
+				if o := info.Uses[id]; o != nil {
+					if _, idx, rhs := findDefine(info, body, o); rhs != nil && len(rhs) > idx {
+						src = ast.Unparen(rhs[idx])
+					}
+				}
+			}
+			if ok, why := fullTrim(src); ok {
+				rr.OK(key, call.Pos(), "the sniffed string is the known prefix with all JSON whitespace trimmed")
+			} else {
+				if why == "" {
+					why = "it is " + trunc(exprStr(src), 50)
+				}
+				rr.Violation(key, call.Pos(), fmt.Sprintf("the first character is sniffed from a string that is not the known prefix with all JSON whitespace (space, tab, LF, CR) removed (%s): a prefix that begins with such whitespace makes the prediction fail with 'cannot begin with the character' although every document with that prefix decodes", why))
+			}
+			return true
+		})
+		if n == 0 {
+			rr.Info(pkg+".JSONDecodeFunc.Type/first-rune", body.Pos(), "the prediction does not sniff a first character")
+		}
+	}
+}
+
+func runDescendingLoopReachesZero(rr *RuleRun) {
+	c := rr.Ctx
+	eachFuncBody(c, allPkgs, func(pkg string, fd *ast.FuncDecl, body *ast.BlockStmt) {
+		info := c.Info(pkg)
+		inspectNoLit(body, func(nd ast.Node) bool {
+			fs, ok := nd.(*ast.ForStmt)
+			if !ok || fs.Init == nil || fs.Cond == nil || fs.Post == nil {
+				return true
+			}
+			// i := len(X) - 1
+			as, ok := fs.Init.(*ast.AssignStmt)
+			if !ok || len(as.Lhs) != 1 || len(as.Rhs) != 1 {
+				return true
+			}
+			iv := objOf(info, as.Lhs[0])
+			init, ok := ast.Unparen(as.Rhs[0]).(*ast.BinaryExpr)
+			if !ok || init.Op != token.SUB || iv == nil {
+				return true
+			}
+			if v, ok := constInt(info, init.Y); !ok || v != 1 {
+				return true
+			}
+			lc, ok := ast.Unparen(init.X).(*ast.CallExpr)
+			if !ok || !isBuiltin(info, lc, "len") {
+				return true
+			}
+			// i--
+			if inc, ok := fs.Post.(*ast.IncDecStmt); !ok || inc.Tok != token.DEC || objOf(info, inc.X) != iv {
+				return true
+			}
+			cond, ok := ast.Unparen(fs.Cond).(*ast.BinaryExpr)
+			if !ok || objOf(info, cond.X) != iv {
+				return true
+			}
+			k, isConst := constInt(info, cond.Y)
+			if !isConst {
+				return true
+			}
+			key := fmt.Sprintf("%s.%s/for %s", pkg, declName(fd), trunc(exprStr(fs.Cond), 20))
+			reachesZero := (cond.Op == token.GEQ && k == 0) || (cond.Op == token.GTR && k == -1)
+			if reachesZero {
+				rr.OK(key, fs.Pos(), "the descending loop visits index 0")
+				return true
+			}
+			if !((cond.Op == token.GTR && k == 0) || (cond.Op == token.GEQ && k == 1)) {
+				return true
+			}
+			// uses of i: plain x[i] only, or also i-1?
+			plain, minusOne := false, false
+			inspectNoLit(fs.Body, func(m ast.Node) bool {
+				switch x := m.(type) {
+				case *ast.IndexExpr:
+					if objOf(info, x.Index) == iv {
+						plain = true
+					}
+				case *ast.BinaryExpr:
+					if x.Op == token.SUB && objOf(info, x.X) == iv {
+						minusOne = true
+					}
+				}
+				return true
+			})
+			if plain && !minusOne {
+				rr.Violation(key, fs.Pos(), fmt.Sprintf("the loop runs from len-1 down while %s and addresses members with %s alone: the member at index 0 is never visited, so sequences that differ only in their first member are treated alike", exprStr(fs.Cond), iv.Name()))
+			} else {
+				rr.OKTrivial(key, fs.Pos(), "the loop looks at the predecessor (i-1), so stopping above 0 is deliberate")
+			}
+			return true
+		})
+	})
+}
+
+func runFreshContainer(rr *RuleRun) {
+	c := rr.Ctx
+	pkg := "cty/gocty"
+	info := c.Info(pkg)
+	fd := rr.MustDecl(pkg, "fromCtyMap")
+	if fd == nil {
+		return
+	}
+	n := 0
+	ast.Inspect(fd.Body, func(nd ast.Node) bool {
+		call, ok := nd.(*ast.CallExpr)
+		if !ok || funcKey(callee(info, call)) != "reflect.Value.SetMapIndex" {
+			return true
+		}
+		n++
+		recvE := call.Fun.(*ast.SelectorExpr).X
+		key := fmt.Sprintf("%s.fromCtyMap/%s.SetMapIndex", pkg, exprStr(recvE))
+		o := objOf(info, recvE)
+		if o == nil {
+			rr.Violation(key, call.Pos(), "entries are stored into "+exprStr(recvE)+", which is not a map made by this function")
+			return true
+		}
+		// every assignment to the variable is reflect.MakeMap / MakeMapWithSize
+		bad := ""
+		ast.Inspect(fd.Body, func(m ast.Node) bool {
+			as, ok := m.(*ast.AssignStmt)
+			if !ok || len(as.Lhs) != len(as.Rhs) {
+				return true
+			}
+			for i, l := range as.Lhs {
+				if objOf(info, l) != o {
+					continue
+				}
+				if rc, ok := ast.Unparen(as.Rhs[i]).(*ast.CallExpr); ok {
+					switch funcKey(callee(info, rc)) {
+					case "reflect.MakeMap", "reflect.MakeMapWithSize":
+						continue
+					}
+				}
+				bad = exprStr(as.Rhs[i])
+			}
+			return true
+		})
+		if bad == "" {
+			rr.OK(key, call.Pos(), "the receiving map is made by reflect.MakeMap on every path")
+		} else {
+			rr.Violation(key, call.Pos(), fmt.Sprintf("the map that receives the decoded entries can be %s rather than a freshly made one: keys left in the target by an earlier decode (or by the caller) survive into the result, and a map the caller shares is written in place", bad))
+		}
+		return true
+	})
+	if n == 0 {
+		rr.Broken("stale anchor: fromCtyMap does not call SetMapIndex")
+	}
+}
+
+func runFlattenNeedsKnownLength(rr *RuleRun) {
+	c := rr.Ctx
+	pkg := "cty/function/stdlib"
+	info := c.Info(pkg)
+	fd := rr.MustDecl(pkg, "flattener")
+	if fd == nil {
+		return
+	}
+	subj := info.Defs[paramIdent(fd, 0)]
+	// aliases of the parameter after unmarking: flattenList, _ = flattenList.Unmark()
+	cf := c.CondFacts(fd.Body, info, nil)
+	n := 0
+	inspectNoLit(fd.Body, func(nd ast.Node) bool {
+		call, ok := nd.(*ast.CallExpr)
+		if !ok || !isCall(info, call, "cty.Value.ElementIterator") || rootObj(info, call) != subj {
+			return true
+		}
+		n++
+		key := pkg + ".flattener/" + exprStr(call)
+		ok = cf.HoldsAt(call, func(cond ast.Expr, truth bool) bool {
+			cc, isC := ast.Unparen(cond).(*ast.CallExpr)
+			if !isC || !truth {
+				return false
+			}
+			se, isS := cc.Fun.(*ast.SelectorExpr)
+			if !isS {
+				return false
+			}
+			switch se.Sel.Name {
+			case "IsWhollyKnown":
+				return rootObj(info, se.X) == subj
+			case "IsKnown":
+				// x.Length().IsKnown()
+				if lc, ok := ast.Unparen(se.X).(*ast.CallExpr); ok && isCall(info, lc, "cty.Value.Length") {
+					return rootObj(info, lc) == subj
+				}
+			}
+			return false
+		})
+		if ok {
+			rr.OK(key, call.Pos(), "the member's length is known where it is iterated")
+		} else {
+			rr.Violation(key, call.Pos(), "the member is iterated on a path that has not established that its length is known (Length().IsKnown() / IsWhollyKnown): a set holding unknown members is then flattened by its stored members, fixing a result length and order that the concrete value may not have")
+		}
+		return true
+	})
+	if n == 0 {
+		rr.Broken("stale anchor: flattener does not iterate its argument with ElementIterator")
+	}
+}
